@@ -26,9 +26,10 @@ structure WF (t : Taxo) (root : Nat) (depth : Nat → Nat) : Prop where
   parent_node : ∀ x n, t.node x = some n → ∃ m, t.node n.parent = some m
   depth_dec : ∀ x n, t.node x = some n → n.parent ≠ x → depth n.parent < depth x
 
-/-- the fuel given to the walking-up loops exceeds the depth of every node -/
-def FuelOK (t : Taxo) (depth : Nat → Nat) (fuel : Nat) : Prop :=
-  ∀ x n, t.node x = some n → depth x < fuel
+/-- the fuel given to the walking-up loops is at least the length of every path (see
+`fuelOK_of_depth` and `fuelOK_of_ids` for the two usual ways to have it) -/
+def FuelOK (t : Taxo) (fuel : Nat) : Prop :=
+  ∀ x p, IsPath t x p → p.length ≤ fuel
 
 /-! ## Anc -/
 
@@ -206,11 +207,19 @@ theorem isPath_path_ok {t : Taxo} {x : Nat} {p : List Nat} (hp : IsPath t x p) :
       simp [path, hn, hr, this]
 
 theorem path_total {t : Taxo} {root : Nat} {depth : Nat → Nat} (wf : WF t root depth) {fuel : Nat}
-    (hf : FuelOK t depth fuel) {x : Nat} {n : Node} (hn : t.node x = some n) :
+    (hf : FuelOK t fuel) {x : Nat} {n : Node} (hn : t.node x = some n) :
     ∃ p, path t fuel x = .ok p ∧ IsPath t x p := by
-  obtain ⟨p, hp, hl⟩ := wf.exists_path (depth x) x n (Nat.le_refl _) hn
-  have := hf x n hn
-  exact ⟨p, isPath_path_ok hp fuel (by omega), hp⟩
+  obtain ⟨p, hp, _⟩ := wf.exists_path (depth x) x n (Nat.le_refl _) hn
+  exact ⟨p, isPath_path_ok hp fuel (hf x p hp), hp⟩
+
+/-- a fuel above the depth of every node is enough -/
+theorem fuelOK_of_depth {t : Taxo} {root : Nat} {depth : Nat → Nat} (wf : WF t root depth) {fuel : Nat}
+    (h : ∀ x n, t.node x = some n → depth x < fuel) : FuelOK t fuel := by
+  intro x p hp
+  obtain ⟨n, hn⟩ := hp.isNode
+  obtain ⟨q, hq, hl⟩ := wf.exists_path (depth x) x n (Nat.le_refl _) hn
+  have := h x n hn
+  rw [hp.functional hq]; omega
 
 /-! ## the loops that walk in lockstep with `path` -/
 
@@ -323,7 +332,7 @@ theorem lastCommon_eq : ∀ (l1 l2 : List Nat) (acc : Option Nat),
       by_cases h : a = b
       · simp only [lastCommon, cpre, h, if_true]
         rw [ih, or_getLast]
-        simp
+        rw [List.getLast?_cons]; simp
       · simp [lastCommon, cpre, h]
 
 theorem cpre_comm : ∀ (l1 l2 : List Nat), cpre l1 l2 = cpre l2 l1 := by
@@ -437,7 +446,7 @@ theorem lca_char {t : Taxo} {root : Nat} {depth : Nat → Nat} (wf : WF t root d
       rw [← hrev]; simpa using this
 
 theorem lca_ok {t : Taxo} {root : Nat} {depth : Nat → Nat} (wf : WF t root depth) {fuel : Nat}
-    (hf : FuelOK t depth fuel) {x y : Nat} {nx ny : Node} (hx : t.node x = some nx) (hy : t.node y = some ny) :
+    (hf : FuelOK t fuel) {x y : Nat} {nx ny : Node} (hx : t.node x = some nx) (hy : t.node y = some ny) :
     ∃ z nz, lca t fuel x y = .ok z ∧ t.node z = some nz ∧ (∀ a, Anc t a z ↔ (Anc t a x ∧ Anc t a y)) ∧
       ∃ px py, path t fuel x = .ok px ∧ path t fuel y = .ok py ∧
         path t fuel z = .ok (cpre px.reverse py.reverse).reverse := by
@@ -449,5 +458,685 @@ theorem lca_ok {t : Taxo} {root : Nat} {depth : Nat → Nat} (wf : WF t root dep
   · simp [lca, hpx, hpy, h1]
   · obtain ⟨pz, hpz, ipz⟩ := path_total wf hf hnz
     rw [hpz, ipz.functional h2]
+
+/-! ## no repetition on a path -/
+
+theorem IsPath.nodup {t : Taxo} {root : Nat} {depth : Nat → Nat} (wf : WF t root depth)
+    {x : Nat} {p : List Nat} (hp : IsPath t x p) : p.Nodup := by
+  induction hp with
+  | root _ _ => simp
+  | @step x n p hn hr hp' ih =>
+    refine List.nodup_cons.2 ⟨?_, ih⟩
+    intro hx
+    have h1 := (hp'.anc_of_mem hx).eq_or_depth_lt wf
+    have h2 := wf.depth_dec x n hn hr
+    rcases h1 with h | h
+    · exact hr h.symm
+    · omega
+
+/-- the fuel used by the model executable: when `ids` lists every node, number of nodes + 1 is enough
+(a path has no repetition and stays among the nodes) -/
+theorem fuelOK_of_ids {t : Taxo} {root : Nat} {depth : Nat → Nat} (wf : WF t root depth)
+    (hids : ∀ x n, t.node x = some n → x ∈ t.ids) : FuelOK t (t.ids.length + 1) := by
+  intro x p hp
+  have hsub : p ⊆ t.ids := by
+    intro a ha
+    obtain ⟨l1, l2, e⟩ := List.append_of_mem ha
+    obtain ⟨n, hn⟩ := (hp.suffix l1 a l2 e).isNode
+    exact hids a n hn
+  have := (hp.nodup wf).length_le_of_subset hsub
+  omega
+
+/-! ## aliases -/
+
+/-- every alias points to a live node (invariant of `AddNewAlias`) -/
+def AliasOK (t : Taxo) : Prop := ∀ o n, t.alias o = some n → ∃ m, t.node n = some m
+
+theorem resolve_isNode {t : Taxo} (ha : AliasOK t) {id x : Nat} (h : resolve t id = some x) :
+    ∃ m, t.node x = some m := by
+  unfold resolve at h
+  split at h
+  · rename_i m hm; cases h; exact ⟨m, hm⟩
+  · exact ha _ _ h
+
+theorem addAlias_node (t : Taxo) (new old : Nat) : (addAlias t new old).node = t.node := by
+  unfold addAlias; split <;> rfl
+
+theorem addAlias_ids (t : Taxo) (new old : Nat) : (addAlias t new old).ids = t.ids := by
+  unfold addAlias; split <;> rfl
+
+theorem addAlias_aliasOK {t : Taxo} (ha : AliasOK t) (new old : Nat) : AliasOK (addAlias t new old) := by
+  unfold addAlias
+  split
+  · rename_i n hn
+    intro o m hm
+    simp only at hm
+    split at hm
+    · cases hm; exact resolve_isNode ha hn
+    · exact ha _ _ hm
+  · exact ha
+
+theorem addAliases_node (t : Taxo) (l : List (Nat × Nat)) : (addAliases t l).node = t.node := by
+  unfold addAliases
+  induction l generalizing t with
+  | nil => rfl
+  | cons a l ih => simp only [List.foldl_cons]; rw [ih, addAlias_node]
+
+theorem addAliases_aliasOK {t : Taxo} (ha : AliasOK t) (l : List (Nat × Nat)) : AliasOK (addAliases t l) := by
+  unfold addAliases
+  induction l generalizing t with
+  | nil => exact ha
+  | cons a l ih => simp only [List.foldl_cons]; exact ih (addAlias_aliasOK ha _ _)
+
+/-! ## clade and rank predicates on a resolved sequence taxid -/
+
+theorem anyClade_eq {t : Taxo} {fuel tid x : Nat} {p : List Nat} (hr : resolve t tid = some x)
+    (hp : path t fuel x = .ok p) :
+    ∀ cs : List Nat, anyClade t fuel tid cs = .ok (cs.any fun c => p.contains c) := by
+  intro cs
+  induction cs with
+  | nil => simp [anyClade]
+  | cons c cs ih =>
+    have : inClade t fuel c tid = .ok (p.contains c) := by
+      simp [inClade, hr, isSubCladeOf_eq_contains c _ _ _ hp]
+    unfold anyClade
+    rw [this]
+    cases h : p.contains c
+    · simp only [List.any_cons, h, ih, Bool.false_or]
+    · simp only [List.any_cons, h, Bool.true_or]
+
+theorem anyClade_unknown {t : Taxo} {fuel tid : Nat} (hr : resolve t tid = none) :
+    ∀ cs : List Nat, anyClade t fuel tid cs = .ok false := by
+  intro cs
+  induction cs with
+  | nil => simp [anyClade]
+  | cons c cs ih => simp [anyClade, inClade, hr, ih]
+
+theorem allRanks_eq {t : Taxo} {fuel tid x : Nat} {p : List Nat} (hr : resolve t tid = some x)
+    (hp : path t fuel x = .ok p) :
+    ∀ rs : List String, allRanks t fuel tid rs = .ok (rs.all fun r => p.any (rankIs t r)) := by
+  intro rs
+  induction rs with
+  | nil => simp [allRanks]
+  | cons r rs ih =>
+    have : hasRank t fuel r tid = .ok (p.any (rankIs t r)) := by
+      simp [hasRank, hr, hasRankDefined_eq_any r _ _ _ hp]
+    unfold allRanks
+    rw [this]
+    cases h : p.any (rankIs t r)
+    · simp only [List.all_cons, h, Bool.false_and]
+    · simp only [List.all_cons, h, ih, Bool.true_and]
+
+theorem allRanks_unknown {t : Taxo} {fuel tid : Nat} (hr : resolve t tid = none) :
+    ∀ rs : List String, allRanks t fuel tid rs = .ok rs.isEmpty := by
+  intro rs
+  cases rs with
+  | nil => simp [allRanks]
+  | cons r rs => simp [allRanks, hasRank, hr]
+
+theorem resolveAll_ok {t : Taxo} : ∀ (cs rs : List Nat), resolveAll t cs = .ok rs →
+    rs = cs.filterMap (resolve t) ∧ ∀ c ∈ cs, (resolve t c).isSome := by
+  intro cs
+  induction cs with
+  | nil => intro rs h; simp [resolveAll] at h; subst h; simp
+  | cons c cs ih =>
+    intro rs h
+    unfold resolveAll at h
+    split at h
+    · cases h
+    · rename_i x hx
+      split at h
+      · rename_i r hr
+        cases h
+        obtain ⟨h1, h2⟩ := ih _ hr
+        refine ⟨by simp [hx, h1], ?_⟩
+        intro c' hc'
+        rcases List.mem_cons.1 hc' with e | e
+        · subst e; simp [hx]
+        · exact h2 _ e
+      · cases h
+
+theorem resolveAll_fatal {t : Taxo} : ∀ (cs : List Nat), (∃ c ∈ cs, resolve t c = none) →
+    resolveAll t cs = .error .fatal := by
+  intro cs
+  induction cs with
+  | nil => intro h; obtain ⟨c, hc, _⟩ := h; simp at hc
+  | cons c cs ih =>
+    intro h
+    unfold resolveAll
+    cases hc : resolve t c with
+    | none => rfl
+    | some x =>
+      simp only
+      have : ∃ c' ∈ cs, resolve t c' = none := by
+        obtain ⟨c', h1, h2⟩ := h
+        rcases List.mem_cons.1 h1 with e | e
+        · subst e; rw [hc] at h2; cases h2
+        · exact ⟨c', e, h2⟩
+      rw [ih this]
+
+theorem resolveAll_total {t : Taxo} : ∀ (cs : List Nat), (∀ c ∈ cs, (resolve t c).isSome) →
+    resolveAll t cs = .ok (cs.filterMap (resolve t)) := by
+  intro cs
+  induction cs with
+  | nil => intro _; simp [resolveAll]
+  | cons c cs ih =>
+    intro h
+    have hc := h c (by simp)
+    obtain ⟨x, hx⟩ := Option.isSome_iff_exists.1 hc
+    have := ih (fun c' hc' => h c' (List.mem_cons_of_mem _ hc'))
+    simp [resolveAll, hx, this]
+
+/-! ## the weighted LCA at threshold 1.0 -/
+
+def sumW : List WItem → Nat
+  | [] => 0
+  | it :: r => it.w + sumW r
+
+def sumAt (i k : Nat) : List WItem → Nat
+  | [] => 0
+  | it :: r => (if it.rp[i]? = some k then it.w else 0) + sumAt i k r
+
+/-- every path has the taxon `k` at level `i` -/
+def AllAt (items : List WItem) (i k : Nat) : Prop := ∀ it ∈ items, it.rp[i]? = some k
+
+theorem sumAt_le (i k : Nat) : ∀ items, sumAt i k items ≤ sumW items := by
+  intro items; induction items with
+  | nil => simp [sumAt, sumW]
+  | cons it r ih => simp only [sumAt, sumW]; split <;> omega
+
+theorem sumAt_lt (i k : Nat) : ∀ items, (∃ it ∈ items, it.rp[i]? ≠ some k ∧ 0 < it.w) →
+    sumAt i k items < sumW items := by
+  intro items; induction items with
+  | nil => intro h; obtain ⟨it, h, _⟩ := h; simp at h
+  | cons it r ih =>
+    intro h
+    simp only [sumAt, sumW]
+    obtain ⟨it', hm, hne, hw⟩ := h
+    rcases List.mem_cons.1 hm with e | e
+    · subst e; have := sumAt_le i k r; simp [hne]; omega
+    · have := ih ⟨it', e, hne, hw⟩; split <;> omega
+
+/-- `∀ (k, v) ∈ lv, v ≤ g k` -/
+def Bnd (lv : List (Nat × Nat)) (g : Nat → Nat) : Prop := ∀ k v, (k, v) ∈ lv → v ≤ g k
+
+theorem levelsAdd_bnd (k' w : Nat) : ∀ (lv : List (Nat × Nat)) (g : Nat → Nat), Bnd lv g →
+    Bnd (levelsAdd lv k' w) (fun k => g k + if k = k' then w else 0) := by
+  intro lv
+  induction lv with
+  | nil =>
+    intro g _ k v h
+    simp [levelsAdd] at h; obtain ⟨rfl, rfl⟩ := h; simp
+  | cons a r ih =>
+    intro g hb k v h
+    obtain ⟨ka, va⟩ := a
+    have hba := hb ka va (by simp)
+    unfold levelsAdd at h
+    split at h
+    · rename_i e
+      rcases List.mem_cons.1 h with h1 | h1
+      · obtain ⟨e1, e2⟩ := Prod.mk.inj h1
+        subst e1; subst e2; subst e
+        simp only [if_true]; omega
+      · have := hb k v (List.mem_cons_of_mem _ h1); simp only; omega
+    · rcases List.mem_cons.1 h with h1 | h1
+      · obtain ⟨e1, e2⟩ := Prod.mk.inj h1
+        subst e1; subst e2
+        simp only; omega
+      · exact ih g (fun k v hm => hb k v (List.mem_cons_of_mem _ hm)) k v h1
+
+def lvStep (i : Nat) (acc : List (Nat × Nat) × Nat) (it : WItem) : List (Nat × Nat) × Nat :=
+  (match it.rp[i]? with
+    | some k => levelsAdd acc.1 k it.w
+    | none => acc.1, acc.2 + it.w)
+
+theorem mkLevels_eq (items : List WItem) (i : Nat) : mkLevels items i = items.foldl (lvStep i) ([], 0) := rfl
+
+theorem lvFold_bnd (i : Nat) : ∀ (items : List WItem) (lv : List (Nat × Nat)) (tot : Nat) (g : Nat → Nat),
+    Bnd lv g →
+    Bnd (items.foldl (lvStep i) (lv, tot)).1 (fun k => g k + sumAt i k items) ∧
+    (items.foldl (lvStep i) (lv, tot)).2 = tot + sumW items := by
+  intro items
+  induction items with
+  | nil => intro lv tot g hb; simp [sumAt, sumW]; exact hb
+  | cons it r ih =>
+    intro lv tot g hb
+    simp only [List.foldl_cons]
+    cases hk : it.rp[i]? with
+    | none =>
+      have := ih lv (tot + it.w) g hb
+      simp only [lvStep, hk, sumAt, sumW]
+      refine ⟨?_, by rw [this.2]; omega⟩
+      intro k v hm
+      have := this.1 k v hm
+      simp at this ⊢; omega
+    | some k' =>
+      have hb' := levelsAdd_bnd k' it.w lv g hb
+      have := ih (levelsAdd lv k' it.w) (tot + it.w) _ hb'
+      simp only [lvStep, hk, sumAt, sumW]
+      refine ⟨?_, by rw [this.2]; omega⟩
+      intro k v hm
+      have := this.1 k v hm
+      simp only at this
+      by_cases e : k = k'
+      · subst e; simp at this ⊢; omega
+      · have e' : ¬ k' = k := fun h => e h.symm
+        simp [e, e'] at this ⊢; omega
+
+theorem lvFold_all (i k : Nat) : ∀ (items : List WItem) (s tot : Nat), AllAt items i k →
+    items.foldl (lvStep i) ([(k, s)], tot) = ([(k, s + sumW items)], tot + sumW items) := by
+  intro items
+  induction items with
+  | nil => intro s tot _; simp [sumW]
+  | cons it r ih =>
+    intro s tot h
+    have h1 : it.rp[i]? = some k := h it (by simp)
+    have h2 : AllAt r i k := fun it' hm => h it' (List.mem_cons_of_mem _ hm)
+    simp only [List.foldl_cons, lvStep, h1, levelsAdd, if_true, sumW]
+    rw [ih _ _ h2]
+    simp; omega
+
+theorem mkLevels_all (i k : Nat) (items : List WItem) (hne : items ≠ []) (h : AllAt items i k) :
+    mkLevels items i = ([(k, sumW items)], sumW items) := by
+  cases items with
+  | nil => exact absurd rfl hne
+  | cons it r =>
+    have h1 : it.rp[i]? = some k := h it (by simp)
+    have h2 : AllAt r i k := fun it' hm => h it' (List.mem_cons_of_mem _ hm)
+    rw [mkLevels_eq]
+    simp only [List.foldl_cons, lvStep, h1, levelsAdd, sumW]
+    rw [lvFold_all i k r _ _ h2]
+    simp
+
+def amStep (acc : Nat × Option Nat) (kv : Nat × Nat) : Nat × Option Nat :=
+  if kv.2 > acc.1 then (kv.2, some kv.1) else acc
+
+theorem argMax_eq (lv : List (Nat × Nat)) : argMax lv = lv.foldl amStep (0, none) := rfl
+
+theorem amFold_mem : ∀ (lv : List (Nat × Nat)) (m0 : Nat) (k0 : Option Nat),
+    lv.foldl amStep (m0, k0) = (m0, k0) ∨
+    ∃ k, (lv.foldl amStep (m0, k0)).2 = some k ∧ (k, (lv.foldl amStep (m0, k0)).1) ∈ lv := by
+  intro lv
+  induction lv with
+  | nil => intro m0 k0; left; rfl
+  | cons a r ih =>
+    intro m0 k0
+    simp only [List.foldl_cons]
+    by_cases h : a.2 > m0
+    · have e : amStep (m0, k0) a = (a.2, some a.1) := by simp [amStep, h]
+      rw [e]
+      rcases ih a.2 (some a.1) with h1 | ⟨k, h1, h2⟩
+      · right; rw [h1]; exact ⟨a.1, rfl, by simp⟩
+      · right; exact ⟨k, h1, List.mem_cons_of_mem _ h2⟩
+    · have e : amStep (m0, k0) a = (m0, k0) := by simp [amStep, h]
+      rw [e]
+      rcases ih m0 k0 with h1 | ⟨k, h1, h2⟩
+      · left; exact h1
+      · right; exact ⟨k, h1, List.mem_cons_of_mem _ h2⟩
+
+theorem keep_all (i k : Nat) (items : List WItem) (h : AllAt items i k) :
+    items.filter (keepItem i (some k)) = items := by
+  apply List.filter_eq_self.2
+  intro it hm
+  simp [keepItem, h it hm]
+
+/-- one turn of the main loop, all weights positive: the loop goes on exactly when all the paths
+carry the same taxon at level `i`, which becomes the candidate answer, and nothing is deleted -/
+theorem wloop_succ (items : List WItem) (hne : items ≠ []) (hw : ∀ it ∈ items, 0 < it.w)
+    (f i : Nat) (tm : Option Nat) :
+    (∀ k, AllAt items i k → wloop (f + 1) i items tm = wloop f (i + 1) items (some k)) ∧
+    ((¬ ∃ k, AllAt items i k) → wloop (f + 1) i items tm = .ok tm) := by
+  have hpos : 0 < sumW items := by
+    cases items with
+    | nil => exact absurd rfl hne
+    | cons it r => have := hw it (by simp); simp only [sumW]; omega
+  constructor
+  · intro k h
+    conv => lhs; unfold wloop
+    simp only [mkLevels_all i k items hne h]
+    have : argMax [(k, sumW items)] = (sumW items, some k) := by simp [argMax, hpos]
+    simp only [this, hpos, true_and, if_true, keep_all i k items h]
+  · intro h
+    conv => lhs; unfold wloop
+    simp only
+    rw [if_neg]
+    rintro ⟨hp, he⟩
+    apply h
+    have hb := lvFold_bnd i items [] 0 (fun _ => 0) (by intro k v hm; simp at hm)
+    rw [← mkLevels_eq] at hb
+    obtain ⟨hb1, hb2⟩ := hb
+    rw [argMax_eq] at he
+    rcases amFold_mem (mkLevels items i).1 0 none with h1 | ⟨k, _, h2⟩
+    · rw [h1] at he; simp only at he; omega
+    · rw [he, hb2] at h2
+      have h3 := hb1 k _ h2
+      simp only [Nat.zero_add] at h3
+      refine ⟨k, fun it hm => ?_⟩
+      apply Classical.byContradiction
+      intro hc
+      have := sumAt_lt i k items ⟨it, hm, hc, hw it hm⟩
+      omega
+
+theorem prefix_snoc_of_getElem {c l : List Nat} {k : Nat} (h : c <+: l) (hk : l[c.length]? = some k) :
+    c ++ [k] <+: l := by
+  obtain ⟨s, rfl⟩ := h
+  cases s with
+  | nil => simp at hk
+  | cons a s' =>
+    simp at hk; subst hk
+    exact ⟨s', by simp⟩
+
+theorem getElem_of_prefix_snoc {c l : List Nat} {k : Nat} (h : c ++ [k] <+: l) : l[c.length]? = some k := by
+  obtain ⟨s, rfl⟩ := h
+  simp
+
+/-- the loop returns the last taxon of the longest common prefix `C` of the root-first paths -/
+theorem wloop_cp (items : List WItem) (hne : items ≠ []) (hw : ∀ it ∈ items, 0 < it.w)
+    (C : List Nat) (hC : ∀ c, c <+: C ↔ ∀ it ∈ items, c <+: it.rp) (tm0 : Option Nat) :
+    ∀ (d : Nat) (c : List Nat) (f : Nat), c <+: C → C.length = c.length + d → d < f →
+      wloop f c.length items ((c.getLast?).or tm0) = .ok ((C.getLast?).or tm0) := by
+  intro d
+  induction d with
+  | zero =>
+    intro c f hc hl hf
+    have e : c = C := hc.eq_of_length (by omega)
+    subst e
+    cases f with
+    | zero => omega
+    | succ f =>
+      apply (wloop_succ items hne hw f c.length _).2
+      rintro ⟨k, hk⟩
+      have : c ++ [k] <+: c := (hC _).2 (fun it hm => prefix_snoc_of_getElem ((hC c).1 hc it hm) (hk it hm))
+      have := this.length_le
+      simp at this
+      omega
+  | succ d ih =>
+    intro c f hc hl hf
+    obtain ⟨s, hs⟩ := hc
+    cases s with
+    | nil => simp at hs; subst hs; omega
+    | cons k s' =>
+      have hck : c ++ [k] <+: C := ⟨s', by rw [← hs]; simp⟩
+      have hall : AllAt items c.length k := fun it hm => getElem_of_prefix_snoc ((hC _).1 hck it hm)
+      cases f with
+      | zero => omega
+      | succ f =>
+        rw [(wloop_succ items hne hw f c.length _).1 k hall]
+        have := ih (c ++ [k]) f hck (by simp; omega) (by omega)
+        simpa using this
+
+/-! ## from the loop to the fold of `TaxNode.LCA` -/
+
+/-- fold of `TaxNode.LCA` over a list of taxa, from the left -/
+def lcaFold (t : Taxo) (fuel : Nat) : Nat → List Nat → Res Nat
+  | x, [] => .ok x
+  | x, y :: ys =>
+    match lca t fuel x y with
+    | .ok z => lcaFold t fuel z ys
+    | .error e => .error e
+
+/-- the root-first path of a node (`paths[taxon]` in `Taxonomy.LCA`) -/
+def rpOf (t : Taxo) (fuel x : Nat) : List Nat :=
+  match path t fuel x with
+  | .ok p => p.reverse
+  | .error _ => []
+
+theorem mkItems_ok {t : Taxo} {root : Nat} {depth : Nat → Nat} (wf : WF t root depth) {fuel : Nat}
+    (hf : FuelOK t fuel) : ∀ (dist : List (Nat × Nat)), (∀ d ∈ dist, ∃ n, t.node d.1 = some n) →
+    mkItems t fuel dist = .ok (dist.map fun d => ⟨d.1, d.2, rpOf t fuel d.1⟩) := by
+  intro dist
+  induction dist with
+  | nil => intro _; rfl
+  | cons d r ih =>
+    intro h
+    obtain ⟨x, w⟩ := d
+    obtain ⟨n, hn⟩ := h (x, w) (by simp)
+    obtain ⟨p, hp, _⟩ := path_total wf hf hn
+    have := ih (fun d hd => h d (List.mem_cons_of_mem _ hd))
+    simp [mkItems, hp, this, rpOf]
+
+theorem prefix_foldl_cpre (c : List Nat) : ∀ (ls : List (List Nat)) (l : List Nat),
+    c <+: ls.foldl cpre l ↔ (c <+: l ∧ ∀ l' ∈ ls, c <+: l') := by
+  intro ls
+  induction ls with
+  | nil => intro l; simp
+  | cons a r ih =>
+    intro l
+    simp only [List.foldl_cons, ih, List.mem_cons, forall_eq_or_imp]
+    constructor
+    · rintro ⟨h1, h2⟩
+      exact ⟨h1.trans (cpre_prefix_left _ _), h1.trans (cpre_prefix_right _ _), h2⟩
+    · rintro ⟨h1, h2, h3⟩
+      exact ⟨prefix_cpre _ _ _ h1 h2, h3⟩
+
+theorem lcaFold_ok {t : Taxo} {root : Nat} {depth : Nat → Nat} (wf : WF t root depth) {fuel : Nat}
+    (hf : FuelOK t fuel) : ∀ (ys : List Nat) (x : Nat) (nx : Node), t.node x = some nx →
+    (∀ y ∈ ys, ∃ n, t.node y = some n) →
+    ∃ z nz, lcaFold t fuel x ys = .ok z ∧ t.node z = some nz ∧
+      rpOf t fuel z = (ys.map (rpOf t fuel)).foldl cpre (rpOf t fuel x) ∧
+      (∀ a, Anc t a z ↔ (Anc t a x ∧ ∀ y ∈ ys, Anc t a y)) := by
+  intro ys
+  induction ys with
+  | nil => intro x nx hx _; exact ⟨x, nx, rfl, hx, rfl, by simp⟩
+  | cons y ys ih =>
+    intro x nx hx h
+    obtain ⟨ny, hy⟩ := h y (by simp)
+    obtain ⟨u, nu, hu, hnu, cu, px, py, hpx, hpy, hpu⟩ := lca_ok wf hf hx hy
+    obtain ⟨z, nz, hz, hnz, hrp, cz⟩ := ih u nu hnu (fun y' hy' => h y' (List.mem_cons_of_mem _ hy'))
+    refine ⟨z, nz, by simp [lcaFold, hu, hz], hnz, ?_, ?_⟩
+    · rw [hrp]
+      simp only [List.map_cons, List.foldl_cons]
+      congr 1
+      simp [rpOf, hpx, hpy, hpu]
+    · intro a
+      rw [cz a, cu a]
+      simp only [List.mem_cons, forall_eq_or_imp]
+      exact and_assoc
+
+/-- the loops of `Taxonomy.LCA(…, 1.0)` on a non-empty distribution of positive weights over nodes
+return the left fold of `TaxNode.LCA` -/
+theorem wlcaNodes_eq_fold {t : Taxo} {root : Nat} {depth : Nat → Nat} (wf : WF t root depth) {fuel : Nat}
+    (hf : FuelOK t fuel) (x w : Nat) (rest : List (Nat × Nat))
+    (hn : ∀ d ∈ (x, w) :: rest, ∃ n, t.node d.1 = some n) (hw : ∀ d ∈ (x, w) :: rest, 0 < d.2) :
+    ∃ z, lcaFold t fuel x (rest.map (·.1)) = .ok z ∧ wlcaNodes t fuel ((x, w) :: rest) = .ok (some z) ∧
+      (∀ a, Anc t a z ↔ ∀ d ∈ (x, w) :: rest, Anc t a d.1) := by
+  obtain ⟨nx, hx⟩ := hn (x, w) (by simp)
+  have hrest : ∀ y ∈ rest.map (·.1), ∃ n, t.node y = some n := by
+    intro y hy
+    obtain ⟨d, hd, rfl⟩ := List.mem_map.1 hy
+    exact hn d (List.mem_cons_of_mem _ hd)
+  obtain ⟨z, nz, hz, hnz, hrp, cz⟩ := lcaFold_ok wf hf (rest.map (·.1)) x nx hx hrest
+  refine ⟨z, hz, ?_, ?_⟩
+  · let items : List WItem := ((x, w) :: rest).map fun d => ⟨d.1, d.2, rpOf t fuel d.1⟩
+    have hitems : mkItems t fuel ((x, w) :: rest) = .ok items := mkItems_ok wf hf _ hn
+    have hne : items ≠ [] := by simp [items]
+    have hwi : ∀ it ∈ items, 0 < it.w := by
+      intro it hit
+      obtain ⟨d, hd, rfl⟩ := List.mem_map.1 hit
+      exact hw d hd
+    have hC : ∀ c, c <+: rpOf t fuel z ↔ ∀ it ∈ items, c <+: it.rp := by
+      intro c
+      rw [hrp, prefix_foldl_cpre]
+      simp only [items, List.map_cons, List.mem_cons, forall_eq_or_imp, List.mem_map, List.map_map]
+      constructor
+      · rintro ⟨h1, h2⟩
+        refine ⟨h1, ?_⟩
+        rintro it ⟨d, hd, rfl⟩
+        exact h2 _ ⟨d, hd, rfl⟩
+      · rintro ⟨h1, h2⟩
+        refine ⟨h1, ?_⟩
+        rintro l ⟨d, hd, rfl⟩
+        exact h2 _ ⟨d, hd, rfl⟩
+    obtain ⟨pz, hpz, ipz⟩ := path_total wf hf hnz
+    have hlen := (path_ok_isPath _ _ _ hpz).2
+    have hrz : rpOf t fuel z = pz.reverse := by simp [rpOf, hpz]
+    have hlast : (rpOf t fuel z).getLast? = some z := by
+      rw [hrz, List.getLast?_reverse]
+      obtain ⟨q, rfl⟩ := ipz.head; rfl
+    have := wloop_cp items hne hwi (rpOf t fuel z) hC (firstAnswer items) (rpOf t fuel z).length [] (fuel + 2)
+      List.nil_prefix (by simp) (by rw [hrz]; simp; omega)
+    simp only [wlcaNodes, hitems]
+    rw [hlast] at this
+    simpa using this
+  · intro a
+    rw [cz a]
+    simp only [List.mem_cons, forall_eq_or_imp, List.mem_map]
+    constructor
+    · rintro ⟨h1, h2⟩
+      exact ⟨h1, fun d hd => h2 _ ⟨d, hd, rfl⟩⟩
+    · rintro ⟨h1, h2⟩
+      refine ⟨h1, ?_⟩
+      rintro y ⟨d, hd, rfl⟩
+      exact h2 d hd
+
+/-! ## `TaxonomicDistribution` -/
+
+theorem setW_mem (x w : Nat) : ∀ (acc : List (Nat × Nat)),
+    (∀ y, y ∈ (setW acc x w).map (·.1) ↔ (y ∈ acc.map (·.1) ∨ y = x)) ∧
+    ((∀ d ∈ acc, 0 < d.2) → 0 < w → ∀ d ∈ setW acc x w, 0 < d.2) := by
+  intro acc
+  induction acc with
+  | nil =>
+    refine ⟨by intro y; simp [setW], ?_⟩
+    intro _ hw d hd; simp [setW] at hd; subst hd; exact hw
+  | cons a r ih =>
+    obtain ⟨xa, va⟩ := a
+    by_cases e : xa = x
+    · subst e
+      refine ⟨?_, ?_⟩
+      · intro y
+        simp only [setW, if_true, List.map_cons, List.mem_cons]
+        constructor
+        · exact Or.inl
+        · rintro (h | h)
+          · exact h
+          · exact Or.inl h
+      · intro h hw d hd
+        simp only [setW, if_true, List.mem_cons] at hd
+        rcases hd with rfl | hd
+        · exact hw
+        · exact h d (List.mem_cons_of_mem _ hd)
+    · refine ⟨?_, ?_⟩
+      · intro y
+        simp only [setW, e, if_false, List.map_cons, List.mem_cons, ih.1 y]
+        exact or_assoc.symm
+      · intro h hw d hd
+        simp only [setW, e, if_false, List.mem_cons] at hd
+        rcases hd with rfl | hd
+        · exact h _ (by simp)
+        · exact ih.2 (fun d hd => h d (List.mem_cons_of_mem _ hd)) hw d hd
+
+theorem taxDist_ok {t : Taxo} : ∀ (kws acc : List (Nat × Nat)), (∀ kw ∈ kws, (resolve t kw.1).isSome) →
+    ∃ dist, taxDist t kws acc = .ok dist ∧
+      (∀ y, y ∈ dist.map (·.1) ↔ (y ∈ acc.map (·.1) ∨ ∃ kw ∈ kws, resolve t kw.1 = some y)) ∧
+      ((∀ d ∈ acc, 0 < d.2) → (∀ kw ∈ kws, 0 < kw.2) → ∀ d ∈ dist, 0 < d.2) := by
+  intro kws
+  induction kws with
+  | nil => intro acc _; exact ⟨acc, rfl, by simp, fun h _ => h⟩
+  | cons kw r ih =>
+    intro acc h
+    obtain ⟨k, w⟩ := kw
+    obtain ⟨x, hx⟩ := Option.isSome_iff_exists.1 (h (k, w) (by simp))
+    obtain ⟨dist, h1, h2, h3⟩ := ih (setW acc x w) (fun kw hkw => h kw (List.mem_cons_of_mem _ hkw))
+    refine ⟨dist, by simp [taxDist, hx, h1], ?_, ?_⟩
+    · intro y
+      rw [h2 y, (setW_mem x w acc).1 y]
+      simp only [List.mem_cons, exists_eq_or_imp, hx, Option.some.injEq]
+      constructor
+      · rintro ((h | h) | h)
+        · exact Or.inl h
+        · exact Or.inr (Or.inl h.symm)
+        · exact Or.inr (Or.inr h)
+      · rintro (h | h | h)
+        · exact Or.inl (Or.inl h)
+        · exact Or.inl (Or.inr h.symm)
+        · exact Or.inr h
+    · intro ha hk
+      exact h3 ((setW_mem x w acc).2 ha (hk (k, w) (by simp))) (fun kw hkw => hk kw (List.mem_cons_of_mem _ hkw))
+
+theorem taxDist_unknown {t : Taxo} : ∀ (kws acc : List (Nat × Nat)), (∃ kw ∈ kws, resolve t kw.1 = none) →
+    taxDist t kws acc = .error .panic := by
+  intro kws
+  induction kws with
+  | nil => intro acc h; obtain ⟨_, h, _⟩ := h; simp at h
+  | cons kw r ih =>
+    intro acc h
+    obtain ⟨k, w⟩ := kw
+    cases hk : resolve t k with
+    | none => simp [taxDist, hk]
+    | some x =>
+      have : ∃ kw ∈ r, resolve t kw.1 = none := by
+        obtain ⟨kw, h1, h2⟩ := h
+        rcases List.mem_cons.1 h1 with e | e
+        · subst e; simp only at h2; rw [hk] at h2; cases h2
+        · exact ⟨kw, e, h2⟩
+      simp [taxDist, hk, ih _ this]
+
+theorem resolveAll_length {t : Taxo} : ∀ (cs rs : List Nat), resolveAll t cs = .ok rs → rs.length = cs.length := by
+  intro cs
+  induction cs with
+  | nil => intro rs h; simp [resolveAll] at h; subst h; rfl
+  | cons c cs ih =>
+    intro rs h
+    unfold resolveAll at h
+    split at h
+    · cases h
+    · split at h
+      · rename_i r hr; cases h; simp [ih _ hr]
+      · cases h
+
+/-! ## "every node reaches the root" gives the depth function of `WF` -/
+
+/-- follow `k` parent links -/
+def up (t : Taxo) : Nat → Nat → Nat
+  | 0, x => x
+  | k + 1, x => match t.node x with
+    | some n => up t k n.parent
+    | none => x
+
+theorem exists_min (P : Nat → Prop) (h : ∃ k, P k) : ∃ k, P k ∧ ∀ j, j < k → ¬ P j := by
+  obtain ⟨k, hk⟩ := h
+  induction k using Nat.strongRecOn with
+  | _ k ih =>
+    by_cases hj : ∃ j, j < k ∧ P j
+    · obtain ⟨j, hlt, hp⟩ := hj
+      exact ih j hlt hp
+    · exact ⟨k, hk, fun j hlt hp => hj ⟨j, hlt, hp⟩⟩
+
+/-- a taxonomy with a single self-parent node `root`, closed under parents, in which every node
+reaches `root` by parent links, is well formed -/
+theorem wf_of_reaches {t : Taxo} {root : Nat}
+    (hroot : ∃ n, t.node root = some n ∧ n.parent = root)
+    (honly : ∀ x n, t.node x = some n → n.parent = x → x = root)
+    (hpar : ∀ x n, t.node x = some n → ∃ m, t.node n.parent = some m)
+    (hreach : ∀ x n, t.node x = some n → ∃ k, up t k x = root) :
+    ∃ depth, WF t root depth := by
+  classical
+  let depth : Nat → Nat := fun x =>
+    if h : ∃ k, up t k x = root then Classical.choose (exists_min _ h) else 0
+  refine ⟨depth, hroot, honly, hpar, ?_⟩
+  intro x n hn hne
+  have hx := hreach x n hn
+  obtain ⟨m, hm⟩ := hpar x n hn
+  have hp := hreach n.parent m hm
+  have dx : depth x = Classical.choose (exists_min _ hx) := by simp only [depth, hx, dif_pos]
+  have dp : depth n.parent = Classical.choose (exists_min _ hp) := by simp only [depth, hp, dif_pos]
+  obtain ⟨hx1, _⟩ := Classical.choose_spec (exists_min _ hx)
+  obtain ⟨_, hp2⟩ := Classical.choose_spec (exists_min _ hp)
+  rw [dx, dp]
+  generalize Classical.choose (exists_min _ hx) = kx at hx1
+  generalize Classical.choose (exists_min _ hp) = kp at hp2
+  cases kx with
+  | zero =>
+    simp only [up] at hx1
+    obtain ⟨n', hn', hr'⟩ := hroot
+    subst hx1
+    rw [hn] at hn'; cases hn'
+    exact absurd hr' hne
+  | succ j =>
+    simp only [up, hn] at hx1
+    apply Classical.byContradiction
+    intro hc
+    exact hp2 j (by omega) hx1
 
 end ObiVerif.Tax
